@@ -43,7 +43,7 @@ def conc_job(jid, tree, progs, max_switches=6, flavour='mir'):
     root, spec = streams.build(idx, sym, tree, m)
     if root is not None: st.extra['root'] = root if isinstance(root, Ref) else Ref(Cell(root))
     tyname = streams.type_name(tree)
-    mf = lambda mdl: {'family': 'threads', 'tree': streams.concretize_spec(mdl, spec), 'programs': progs}
+    mf = lambda mdl: {'family': 'threads', 'tree': streams.concretize_spec(mdl, spec), 'programs': progs, 'stress_replace': streams.oracles.has_kind(tree, ('replace',))}
     pre = streams.prepare(m, J, st, spec, mf)
     if len(pre) != 1: raise Inconclusive('construction forked')
     st = pre[0]
